@@ -113,3 +113,61 @@ class get_labels_per_variable:
         ),
     ]
     modifies = lambda label_variables, compounds: []
+
+
+def SubUnits(st, n):
+    # units of base stoichiometry consumed by the first n species
+    return fold_prefix(lambda acc, k: acc + (0 - st[k] if st[k] < 0 else 0), 0, keys(st), n)
+
+
+def ProdUnits(st, n):
+    return fold_prefix(lambda acc, k: acc + (st[k] if st[k] > 0 else 0), 0, keys(st), n)
+
+
+@contract("mxlpy.label_map:_unpack_stoichiometries")
+class unpack_stoichiometries_labels:
+    # "one isotopomer per unit of base stoichiometry": a species with coefficient -n appears
+    # n times among the substrates, one with +n appears n times among the products
+    requires = lambda stoichiometries: dict_wf(stoichiometries)
+    ensures = lambda stoichiometries, result: [
+        len(result[0]) == SubUnits(stoichiometries, len(keys(stoichiometries))),
+        len(result[1]) == ProdUnits(stoichiometries, len(keys(stoichiometries))),
+        forall(
+            lambda p: implies(
+                0 <= p and p < len(result[0]), at(result[0], p) in stoichiometries and stoichiometries[at(result[0], p)] < 0
+            ),
+            "int",
+        ),
+        forall(
+            lambda p: implies(
+                0 <= p and p < len(result[1]), at(result[1], p) in stoichiometries and stoichiometries[at(result[1], p)] > 0
+            ),
+            "int",
+        ),
+        unchanged(stoichiometries),
+    ]
+    modifies = lambda stoichiometries: []
+    loops = {
+        1: lambda stoichiometries, substrates, products: [
+            fresh(substrates),
+            fresh(products),
+            not (substrates is products),
+            unchanged(stoichiometries),
+            len(substrates) == SubUnits(stoichiometries, _i),
+            len(products) == ProdUnits(stoichiometries, _i),
+            forall(
+                lambda p: implies(
+                    0 <= p and p < len(substrates),
+                    at(substrates, p) in stoichiometries and stoichiometries[at(substrates, p)] < 0,
+                ),
+                "int",
+            ),
+            forall(
+                lambda p: implies(
+                    0 <= p and p < len(products),
+                    at(products, p) in stoichiometries and stoichiometries[at(products, p)] > 0,
+                ),
+                "int",
+            ),
+        ],
+    }
